@@ -96,7 +96,12 @@ def run_case(case, count_points=False):
                 outs = []
                 for qi, (a, b, rev) in enumerate(queries):
                     tls.q = ("t", t, qi)
-                    res = list(c.fetch(a, b, reverse=rev))
+                    # the consumer may be preempted between two results it takes from the iterator (the
+                    # result list is yielded after the lock is released: it must be private to the query)
+                    res = []
+                    for x in c.fetch(a, b, reverse=rev):
+                        res.append(x)
+                        sched.point(t)
                     outs.append((("t", t, qi), ["q", a, b, rev], [obs_iv(r, False) for r in res]))
                 return outs
             return prog
@@ -172,6 +177,12 @@ SCENARIOS = [
          threads=[[(0, 15, False)], [(12, 30, False)], [(5, 25, True)]]),     # three threads
     dict(evs=[[3, 27, 1]], ttl=2, tick=1, prewarm=[["q", 0, 10, False], ["q", 20, 30, False], ["adv", 5]],
          threads=[[(0, 30, False), (10, 20, False)], [(5, 25, False), (0, 30, True)]]),
+    # the SAME window, already cached, read forward by one thread and in reverse by another (and asked twice by
+    # one thread): nothing is filled or evicted, only the answers can interfere
+    dict(evs=[[2, 18, 1], [8, 12, 2], [15, 40, 3], [20, 22, 4]], ttl=100, tick=1, prewarm=[["q", 0, 30, False]],
+         threads=[[(0, 30, False)], [(0, 30, True)]]),
+    dict(evs=[[2, 18, 1], [8, 12, 2], [15, 40, 3], [20, 22, 4]], ttl=100, tick=0, prewarm=[["q", 0, 30, False]],
+         threads=[[(0, 30, False), (0, 30, False)], [(0, 30, True), (0, 30, False)]]),
 ]
 
 
@@ -183,9 +194,9 @@ class ConcFamily(Family):
     oracle = "oracle_C09"
     shard = 150
     n_quick, n_thorough = 1400, 12000
-    rule = ("6 scenarios (2-3 threads, 1-2 overlapping queries each, empty and pre-warmed caches, with and "
+    rule = ("8 scenarios (2-3 threads, 1-2 overlapping queries each, empty and pre-warmed caches, with and "
             "without expiry) x every placement of 0 or 1 preemption at a scheduling point (traced line of "
-            "cache.py/memory.py, lock acquire/release, source-fetch boundary) x both start orders; thorough adds "
+            "cache.py/memory.py, lock acquire/release, source-fetch boundary, between two results a consumer takes) x both start orders; thorough adds "
             "2-preemption schedules; non-trivial = the run had at least one context switch before a thread finished")
 
     def gen(self, rng, tier, n):
